@@ -432,6 +432,38 @@ def random_history_traces(rep, rnd, count, own):
             rep.violation({"formula": "Isolation", "trace": True, "rejected": True},
                           "recorded history is not a behaviour of Tofu at a trust-store operation: %s" % desc, t) if "Isolation" in own \
                 else rep.drifted("recorded history rejected by TofuTrace: " + desc)
+    if rep.tier == "thorough" and traces:
+        # demonstrate the binding: corrupt one logged pin table / one call result - TofuTrace must reject
+        import copy
+        corrupted, kinds = [], []
+        for t in traces[:40]:
+            if len(t["steps"]) < 4:
+                continue
+            c1 = copy.deepcopy(t)
+            k_ = len(c1["steps"]) // 2
+            c1["steps"][k_]["pins"]["b"] = "c1" if c1["steps"][k_]["pins"]["b"] != "c1" else "none"
+            corrupted.append(c1)
+            kinds.append("pins")
+            calls = [i for i, s_ in enumerate(t["steps"]) if s_["act"][0] == "Call" and t["tofuOn"]]
+            if calls:
+                c2 = copy.deepcopy(t)
+                i = calls[-1]
+                c2["steps"][i]["ok"] = not c2["steps"][i]["ok"]
+                c2["steps"][i]["err"] = "" if c2["steps"][i]["ok"] else "changed"
+                corrupted.append(c2)
+                kinds.append("call result")
+        fd, cpath = tempfile.mkstemp(prefix="vf-tofu-", suffix=".json")
+        with os.fdopen(fd, "w") as f:
+            _json.dump(corrupted, f)
+        try:
+            trc, reached_c = tlc.validate_traces("TofuTrace", "TofuTrace.cfg", cpath, timeout=900)
+        finally:
+            os.unlink(cpath)
+        wrongly = [kinds[i - 1] for i, t in enumerate(corrupted, 1)
+                   if reached_c.get(i, {"max": 0})["max"] == len(t["steps"]) + 1 and not reached_c[i]["bad"]]
+        rep.set("binding_selftest_tofu", {"corrupted_traces": len(corrupted), "wrongly_accepted": wrongly})
+        if wrongly:
+            raise tlc.TLCError("binding self-test: corrupted Tofu histories accepted: %s" % wrongly)
     rep.add("random_histories", len(traces))
     rep.add("random_histories_accepted", acc)
     rep.add("random_history_steps", nsteps)
